@@ -1,4 +1,12 @@
-#[cfg(any(not(verif_select), verif_ge))] #[path = "/verif/harness/ntp_proto/ge_probe_source.rs"] pub(crate) mod ge;
-#[cfg(any(not(verif_select), verif_gc))] #[path = "/verif/harness/ntp_proto/gc_probe_source.rs"] pub(crate) mod gc;
-#[cfg(any(not(verif_select), verif_gd))] #[path = "/verif/harness/ntp_proto/gd_probe_source.rs"] pub(crate) mod gd;
-#[cfg(any(not(verif_select), verif_gk))] #[path = "/verif/harness/ntp_proto/gk_probe_source.rs"] pub(crate) mod gk;
+#[cfg(any(not(verif_select), verif_gc))]
+#[path = "/verif/harness/ntp_proto/gc_probe_source.rs"]
+pub(crate) mod gc;
+#[cfg(any(not(verif_select), verif_gd))]
+#[path = "/verif/harness/ntp_proto/gd_probe_source.rs"]
+pub(crate) mod gd;
+#[cfg(any(not(verif_select), verif_ge))]
+#[path = "/verif/harness/ntp_proto/ge_probe_source.rs"]
+pub(crate) mod ge;
+#[cfg(any(not(verif_select), verif_gk))]
+#[path = "/verif/harness/ntp_proto/gk_probe_source.rs"]
+pub(crate) mod gk;
